@@ -27,6 +27,8 @@ CALL_ACTS = {
     "request_rejoin": "ARequestRejoin",
     "reset_generation": "AResetGeneration",
     "force_metadata_update": "AMetadataUpdate",
+    "_coordinator_dead": "ACoordinatorDead",
+    "_abortable_error": "AAbortable",   # the transaction moves to ABORTABLE_ERROR
     "done": "ADone",                 # batch.done(...): the records' futures resolve with metadata
     "failure": "AFail",              # batch.failure(exception=...): the records' futures fail
 }
@@ -181,6 +183,10 @@ class DispatchTr:
             f = e.func
             if self.is_var(f):
                 return "ARaiseSame"
+            if isinstance(f, ast.Name) and f.id == "ProducerFenced":
+                return "ARaiseFenced"
+            if isinstance(f, ast.Name) and f.id in self.errno:
+                return f"(ARaiseCode {self.z(self.errno[f.id])})"
             if isinstance(f, ast.Attribute) and isinstance(f.value, ast.Name) and f.value.id == "Errors":
                 if f.attr == "KafkaError":
                     return "ARaiseUnexpected"
@@ -202,10 +208,20 @@ class DispatchTr:
                 return "[AReturn RTrue]"
             if isinstance(v, ast.Constant) and v.value is False:
                 return "[AReturn RFalse]"
+            srcv = ast.get_source_segment(self.src, v)
+            if srcv in ("self._default_backoff", "BACKOFF_OVERRIDE"):
+                return "[ARetryAfterBackoff]"      # the handler asks to be run again after a backoff
             return "[AReturn RValue]"
         if isinstance(s, ast.Raise):
             return f"[{self.raise_act(s, env)}]"
+        if isinstance(s, ast.Pass):
+            return self.block(rest, k, env)
         if isinstance(s, ast.If):
+            atoms = getattr(self.u, "dispatch_atoms", {})
+            tsrc = ast.get_source_segment(self.src, s.test)
+            if tsrc in atoms:
+                kk = self.bind(self.block(rest, k, env))
+                return f"(if {atoms[tsrc]} then {self.block(s.body, kk, env)} else {self.block(s.orelse, kk, env)})"
             if self.mentions_var(s.test):
                 c = self.cond(s.test)
                 # the success branch is not part of the dispatch: summarised
